@@ -420,6 +420,21 @@ impl Server {
         res.map_err(Into::into)
     }
 
+    /// Forwards to the private `process_once` for the verification harness.
+    #[cfg(feature = "verif-hooks")]
+    pub fn verif_process_once(
+        config: &Config,
+        engine: &Engine,
+        history: &SharedHistory,
+        notify: &mut NotifySender,
+        exceptions: &LocalExceptions,
+        initial: bool,
+    ) -> Result<(), RunFailed> {
+        Self::process_once(
+            config, engine, history, notify, exceptions, initial
+        )
+    }
+
     fn process_once(
         config: &Config,
         engine: &Engine,
@@ -462,6 +477,8 @@ impl Server {
                 "New serial is {serial}."
             );
         }
+        #[cfg(feature = "verif-hooks")]
+        crate::verif::yield_point("process_once.before_notify");
         if must_notify {
             info!("Sending out notifications.");
             notify.notify();
